@@ -531,10 +531,35 @@ func checkC12(c *Ctx) (int, error) {
 		cs.Data.Len = mx
 		c.ev.nontrivial(histString(cs.Ops) + "|" + cs.Tag + fmt.Sprint(cs.FailAt))
 	}
+	cases = append(cases, soakCases(c, rng, "C12")...)
 	c.ev.Rule = fmt.Sprintf("every history of %d calls over {Write(small|large), Flush, Close, Reset} with one or two Resets (also back to back) the last of which is followed by a history ending in Close (TLC, WriterModel), on %d of %d settings; one third with a destination failure inside h1; the bytes after Reset are compared with a fresh Writer's; distinct by (history, setting, failure)", maxLen, per, len(allWSettings))
 	c.ev.Exhaustive = true
 	for _, cs := range spread(cases) {
 		c.ev.sample(map[string]interface{}{"history": histString(cs.Ops), "setting": cs.Tag, "failat": cs.FailAt})
 	}
 	return c.writerRun("c12", c.spreadArch(cases, false), true)
+}
+
+// soakCases: a Writer that has been through many streams ending in a destination failure, each
+// followed by Reset (a pooled Writer on flaky connections), then writes one healthy stream, which
+// is compared with a fresh Writer's.
+func soakCases(c *Ctx, rng *rand.Rand, prefix string) []*WCase {
+	cycles, per := 1500, 1
+	if c.Tier == "thorough" {
+		cycles, per = 6000, 3
+	}
+	var cases []*WCase
+	for si, set := range accelSettings {
+		for v := 0; v < 8*per; v++ {
+			n := pick(rng, []int{300, 9000, capOf(set) + 3000})
+			cs := &WCase{ID: fmt.Sprintf("%s-soak-%d-%d", prefix, si, v), Set: set, Tag: settingTag(set) + fmt.Sprintf("|soak%d/%d", v%4, 1+v/4%2),
+				Soak: cycles, SoakPat: v % 4, SoakAt: 1 + v/4%2, Cmp: "soak",
+				Data: DataSpec{Class: []string{"text", "mixed", "digits"}[v%3], Seed: rng.Int63n(1 << 30), Len: n},
+				Ops:  []Op{{Op: "W", N: n}, {Op: "F"}, {Op: "C"}}}
+			cs.Shadow = cs.Ops
+			cases = append(cases, cs)
+			c.ev.nontrivial(cs.Tag)
+		}
+	}
+	return cases
 }
